@@ -2,8 +2,8 @@
    Model: Model/SegCodec.v (serialization.go, format version 2) over Model/Segment.v.
    encoding/json of the four metadata fields is an abstract pair [enc_meta]/[dec_meta]; the
    theorems assume it round-trips (hypothesis [meta_roundtrip]) and that the block is shorter than 2^64. *)
-From Pyro Require Import Model.Base Model.Varint Model.Float53 Model.Segment Model.SegCodec
-  Proofs.SegStruct Proofs.SegCodecProofs.
+From Pyro Require Import Model.Base Model.Varint Model.Float53 Model.Segment Model.SegCodec Model.MetaJson
+  Proofs.SegStruct Proofs.SegCodecProofs Proofs.MetaJsonProofs Proofs.SegCodecJson.
 Local Open Scope Z_scope.
 
 (* every segment reachable by writes (any spans/positions inside one epoch block), retention cuts and
@@ -67,6 +67,32 @@ Theorem C14_resave_identical : forall (enc_meta : meta -> bytes) (dec_meta : byt
 Proof. intros e d H1 H2 K s. exact (reload_bytes e d H1 H2 K s). Qed.
 Print Assumptions C14_resave_identical.
 
+(* ---- the same with the metadata JSON modelled concretely (Model/MetaJson.v: json.Marshal of the map with
+   encoding/json's string escaping, and a JSON object reader): no hypothesis about encoding/json is left ---- *)
+
+(* the metadata block round-trips for valid UTF-8 strings and a uint32 rate *)
+Theorem C14_meta_json_roundtrip : forall m, meta_validb m = true -> read_meta (write_meta m) = Some m.
+Proof. exact meta_json_roundtrip. Qed.
+Print Assumptions C14_meta_json_roundtrip.
+
+(* for arbitrary bytes what comes back is the strings with malformed UTF-8 replaced by U+FFFD
+   (the known finding metadata-invalid-utf8, as a theorem about the model) *)
+Theorem C14_meta_json_fix : forall m, (m_rate m < 2 ^ 32)%N -> read_meta (write_meta m) = Some (fix_meta m).
+Proof. exact read_write_meta. Qed.
+Print Assumptions C14_meta_json_fix.
+
+Theorem C14_roundtrip_json : forall K s, reachable K s -> seg_bounded s -> s_root s <> None -> meta_ok (s_meta s) ->
+  s_deserialize read_meta (s_serialize write_meta s) = Some s.
+Proof. exact codec_roundtrip_json_reachable. Qed.
+Print Assumptions C14_roundtrip_json.
+
+Theorem C14_roundtrip_json_fix : forall K s, seg_ok K s -> seg_bounded s -> s_root s <> None ->
+  (m_rate (s_meta s) < 2 ^ 32)%N ->
+  (Nlen (m_spy (s_meta s)) + Nlen (m_units (s_meta s)) + Nlen (m_agg (s_meta s)) < 2 ^ 60)%N ->
+  s_deserialize read_meta (s_serialize write_meta s) = Some {| s_root := s_root s; s_meta := fix_meta (s_meta s) |}.
+Proof. exact codec_roundtrip_json_fix. Qed.
+Print Assumptions C14_roundtrip_json_fix.
+
 (* non-vacuity: a three-level segment built by two writes and a retention cut is reachable, bounded
    and non-empty, and the codec round-trips on it (with the metadata block taken as given) *)
 Definition ex_seg : segment :=
@@ -75,13 +101,18 @@ Definition ex_seg : segment :=
           (fst (s_put 6321559690 6321559715 100 s_empty)))))).
 Example C14_nonvacuous :
   reachable 63 ex_seg /\ seg_bounded ex_seg /\ s_root ex_seg <> None /\
-  s_deserialize (fun _ => Some (s_meta ex_seg)) (s_serialize (fun _ => []) ex_seg) = Some ex_seg.
+  s_deserialize (fun _ => Some (s_meta ex_seg)) (s_serialize (fun _ => []) ex_seg) = Some ex_seg /\
+  (* concrete JSON: quotes, '<', newline, U+2028, non-BMP, NUL *)
+  let m := {| m_spy := [103; 34; 60; 10; 226; 128; 168]%N; m_rate := 4294967295%N;
+              m_units := [240; 159; 152; 128; 0]%N; m_agg := [115; 117; 109]%N |} in
+  meta_ok m /\ s_deserialize read_meta (s_serialize write_meta (s_set_meta m ex_seg)) = Some (s_set_meta m ex_seg).
 Proof.
-  split; [|split; [|split]].
+  split; [|split; [|split; [|split]]].
   - unfold ex_seg. apply reach_put; [apply reach_del; apply reach_put; [apply reach_empty|]|];
       unfold valid_range; change (pow10 8) with 100000000; lia.
   - apply seg_boundedb_bounded. vm_compute. reflexivity.
   - assert (H : exists r, s_root ex_seg = Some r) by (vm_compute; eexists; reflexivity).
     destruct H as [r H]. rewrite H. discriminate.
   - vm_compute. reflexivity.
+  - cbv zeta. split; [split; vm_compute; reflexivity|]. vm_compute. reflexivity.
 Qed.
